@@ -70,7 +70,7 @@ PROPERTIES = {
     ),
     "C09": dict(
         modules=["contracts.c04_package", "contracts.c09_pruning"],
-        bounded=[_bounded.lazy("contracts.c09_pruning", "bounded_pruning")],
+        bounded=[_bounded.lazy("contracts.c09_pruning", "bounded_pruning"), _bounded.lazy("contracts.e2e_pruning", "bounded_pruned_packages")],
         explanation="accumulation of used enums / inputs in the package orchestration and in InputTypesGenerator; closure (dfs) by bounded stand-in",
         assumptions=["textual identity of retained definitions also depends on autoflake/isort/black (assumed)"],
     ),
@@ -123,7 +123,7 @@ PROPERTIES = {
     "C04": dict(
         modules=["contracts.c04_package", "contracts.c04_modules", "contracts.c08_fragments", "contracts.c18_names"],
         bounded=[_bounded.lazy("contracts.e2e_package", "bounded_packages"), _bounded.lazy("contracts.c08_fragments", "bounded_fragment_order"),
-                 _bounded.lazy("contracts.e2e_fragments", "bounded_scenarios")],
+                 _bounded.lazy("contracts.e2e_fragments", "bounded_scenarios"), _bounded.lazy("contracts.e2e_pruning", "bounded_pruned_packages")],
         explanation="package orchestration (order of steps, reported files), module-level generators (init __all__, enum members), documented refusals; whole packages by an end-to-end bounded stand-in (import of every generated module)",
         assumptions=["that formatted modules import is autoflake/isort/black/pydantic's (assumed, sampled by the stand-in)"],
     ),
